@@ -17,4 +17,6 @@ expect T03 VerifT03_RacyRead violation
 expect T04 VerifT04_BufferedChannelDrained ok
 expect T04 VerifT04_BufferedSendBlocks violation
 expect T04 VerifT04_GoroutinePanic violation
+expect T05 VerifT05_SplitTrimStructure ok
+expect T05 VerifT05_WrongClaimIsRefuted violation
 exit $fail
